@@ -4,6 +4,8 @@ import (
 	"fmt"
 	"net"
 	"net/url"
+	"os"
+	"path/filepath"
 	"strings"
 	"sync"
 	"time"
@@ -22,11 +24,13 @@ type c12Cfg struct {
 	NoUser   bool   `json:"no_username"`
 	Template string `json:"username_template"`
 	VerifyIP bool   `json:"verify_client_ip"`
+	// TplFile: an administrator's connection-file template (client.defaults) is configured
+	TplFile bool `json:"template_file"`
 }
 
 func CheckC12(l *Lab, verifDir string) int {
 	rep := NewReport("C12", l.Tier, l.Seed, "exploration", verifDir)
-	rep.Rule = "one real gateway process per configuration {host selection roundrobin/unsigned/signed/any} x {host list: one, two, user placeholder, mixed, DNS names} x {SplitUserDomain, NoUsername, user-name template}; per process: /connect without cookie, with garbage cookies, after failed callbacks (must redirect to the IdP's authorization endpoint and never return a token), then logged-in sessions of several users (plain, user@domain, unicode, colon) from several client addresses (peer 127.0.0.1/127.0.0.2, X-Forwarded-For chains) requesting listed, unlisted, near-miss (case, trailing dot, port +-1, prefix), template-text, signed-good/expired/wrong-issuer/wrong-key/alg-none query hosts; the returned file is parsed by the lab's own line parser and the token payload decoded: gateway host, target host per policy, claims == (host, user [domain removed iff splitting], requesting address, that session's IdP access token, iss rdpgw); two sessions of the same user from different addresses must get their own claims; under roundrobin/unsigned/any the host and token are replayed over a real tunnel from the same address and must reach that host's listener. non-trivial = /connect answered; distinct = configuration x request class x outcome"
+	rep.Rule = "one real gateway process per configuration {host selection roundrobin/unsigned/signed/any} x {host list: one, two, user placeholder, mixed, DNS names} x {SplitUserDomain, NoUsername, user-name template} x {with / without a client.defaults template file}; per process: /connect without cookie, with garbage cookies, after failed callbacks (must redirect to the IdP's authorization endpoint and never return a token), then logged-in sessions of several users (plain, user@domain, unicode, colon) from several client addresses (peer 127.0.0.1/127.0.0.2, X-Forwarded-For chains) requesting listed, unlisted, near-miss (case, trailing dot, port +-1, prefix), template-text, signed-good/expired/wrong-issuer/wrong-key/alg-none query hosts; the returned file is parsed by the lab's own line parser and the token payload decoded: gateway host, target host per policy, claims == (host, user [domain removed iff splitting], requesting address, that session's IdP access token, iss rdpgw); two sessions of the same user from different addresses must get their own claims; under roundrobin/unsigned/any the host and token are replayed over a real tunnel from the same address and must reach that host's listener. after the sessions: visitors that never logged in ask again with the cookie of their first redirect (must not get a file) and all sessions download simultaneously (each file must carry its own session's claims). non-trivial = /connect answered; distinct = configuration x request class x outcome"
 	var cfgs []c12Cfg
 	id := 0
 	modes := []string{"roundrobin", "unsigned", "signed", "any"}
@@ -117,6 +121,11 @@ func c12One(l *Lab, rep *Report, idp *IdP, c c12Cfg) {
 	if c.Mode == "signed" {
 		cfg.QuerySigningKey = StrP(c12QueryKey)
 		cfg.QueryTokenIssuer = c12Issuer
+	}
+	if c.TplFile {
+		pth := filepath.Join(l.NewDir("c12tpl"), "defaults.rdp")
+		os.WriteFile(pth, []byte("audiomode:i:2\r\nscreen mode id:i:1\r\nusername:s:template-user\r\nfull address:s:template-host:1\r\n"), 0600)
+		cfg.Defaults = pth
 	}
 	g, err := l.StartGateway(cfg)
 	if err != nil {
@@ -425,6 +434,101 @@ func c12One(l *Lab, rep *Report, idp *IdP, c c12Cfg) {
 			}
 			if si == 0 && ri == 0 && c.ID%7 == 0 {
 				rep.Sample(map[string]any{"config": c, "user": s.user, "client_address": s.addr, "request": path, "file_settings": f.Settings, "claims": cl})
+			}
+		}
+	}
+	// ---- visitors after logged-in sessions were served: a cookie handed out with the redirect
+	// stays a not-logged-in session whatever the gateway decoded before it
+	for i := 0; i < 3 && len(sessions) > 0; i++ {
+		br := NewBrowser(g, "127.0.0.3")
+		r1, err := br.Do("GET", "/connect", nil)
+		if err != nil {
+			continue
+		}
+		s := sessions[i%len(sessions)]
+		q := ""
+		if c.Mode != "roundrobin" {
+			q = "?host=" + url.QueryEscape(c12GoodQuery(c, hosts[0], s.user, time.Now().Unix()+3600))
+		}
+		s.br.Do("GET", "/connect"+q, nil)
+		r2, err := br.Do("GET", "/connect"+q, nil)
+		if err != nil {
+			continue
+		}
+		rep.Eval(HashStr(c.ID, "visitor-after-sessions", r1.Status, r2.Status))
+		rep.Count("visitor_after_session_requests", 1)
+		if hasToken(r2) || r2.Status == 200 {
+			viol("file-without-login/after-other-sessions", fmt.Sprintf("a visitor who never logged in (cookie from its first redirect, status %d) asks again after %q was served: status %d with a body of %d bytes", r1.Status, s.user, r2.Status, len(r2.Body)), map[string]any{"body": trunc(string(r2.Body), 400)})
+		}
+	}
+	// ---- simultaneous downloads of different sessions: every file carries its own session's claims
+	{
+		type got struct {
+			s    *c12Session
+			body string
+			code int
+		}
+		var mu sync.Mutex
+		var files []got
+		var wg sync.WaitGroup
+		for _, s := range sessions {
+			for k := 0; k < 4; k++ {
+				wg.Add(1)
+				go func(s *c12Session) {
+					defer wg.Done()
+					q := ""
+					if c.Mode != "roundrobin" {
+						q = "?host=" + url.QueryEscape(c12GoodQuery(c, hosts[0], s.user, time.Now().Unix()+3600))
+					}
+					// a fresh browser object per request: the jar is only read
+					b2 := NewBrowser(g, s.local)
+					b2.XFF = s.br.XFF
+					for ck, cv := range s.br.Cookies {
+						b2.Cookies[ck] = cv
+					}
+					r, err := b2.Do("GET", "/connect"+q, nil)
+					if err != nil {
+						return
+					}
+					mu.Lock()
+					files = append(files, got{s, string(r.Body), r.Status})
+					mu.Unlock()
+				}(s)
+			}
+		}
+		wg.Wait()
+		for _, gf := range files {
+			if gf.code != 200 || !strings.Contains(gf.body, "gatewayaccesstoken") {
+				continue
+			}
+			f := ParseRDP(gf.body)
+			v := JudgeCookie(f.Settings["gatewayaccesstoken"], []byte(Key32a))
+			rep.Eval(HashStr(c.ID, "concurrent-download", gf.s.user, gf.s.addr))
+			rep.Count("concurrent_downloads", 1)
+			if !v.WellFormed || !v.MACOK {
+				viol("token-not-under-signing-key/concurrent", "simultaneous downloads: the file's access token is not a JWS under the configured signing key", map[string]any{"body": trunc(gf.body, 400)})
+				continue
+			}
+			wantUser := gf.s.user
+			if c.Split {
+				wantUser = strings.SplitN(gf.s.user, "@", 2)[0]
+			}
+			cl := v.Claims
+			detail := map[string]any{"user": gf.s.user, "client_address": gf.s.addr, "claims": cl, "body": trunc(gf.body, 500)}
+			if cl["sub"] != wantUser || cl["accessToken"] != gf.s.at || cl["clientIp"] != gf.s.addr {
+				viol("claims-of-another-session/concurrent", fmt.Sprintf("simultaneous downloads: the file of user %q from %q carries sub %q clientIp %q (own IdP access token: %v)", gf.s.user, gf.s.addr, cl["sub"], cl["clientIp"], cl["accessToken"] == gf.s.at), detail)
+			}
+			if cl["remoteServer"] != f.Settings["full address"] {
+				viol("claim-remoteServer/concurrent", fmt.Sprintf("simultaneous downloads: token remoteServer %q, file host %q", cl["remoteServer"], f.Settings["full address"]), detail)
+			}
+			okHost := c.Mode == "any"
+			for _, h := range hosts {
+				if subst(h, gf.s.user) == f.Settings["full address"] {
+					okHost = true
+				}
+			}
+			if !okHost && c.Mode != "signed" {
+				viol("host-outside-policy/concurrent", fmt.Sprintf("simultaneous downloads: user %q got host %q", gf.s.user, f.Settings["full address"]), detail)
 			}
 		}
 	}
